@@ -254,6 +254,13 @@ def gen_cases(ctx):
             if n <= 4 or k % 4 == 0:
                 h = with_order(rng, g)
                 cases.append({"kind": "pattern", "g": h, "src": "dag%d-shuffled" % n, "fam": fams[k % len(fams)]})
+    if tier == "quick":
+        # a seed-dependent eighth of the 5-node DAGs, in a shuffled node order (orientations that must
+        # propagate over several sweeps and rule combinations first appear at 5 nodes)
+        for k, g in enumerate(all_dags(5)):
+            if k % 8 == ctx["seed"] % 8:
+                cases.append({"kind": "pattern", "g": with_order(rng, g), "src": "dag5(1/8)-shuffled",
+                              "fam": fams[k % len(fams)]})
     # random larger DAGs (5..7 nodes): patterns, brute force still cheap (<= 2^|undirected| orientations)
     for k in range(400 if tier == "quick" else 4000):
         n = rng.choice((5, 6, 6, 7))
